@@ -34,6 +34,8 @@
 (*            (which of the two is delivered is left open)                 *)
 (*  Listed    whatever was emitted is listed afterwards, once, also after  *)
 (*            the reopen                                                   *)
+(*  A line "restless" (V still emits events after 40 sentinel rounds      *)
+(*  although nothing arrives) is consumed by no action: rejected.          *)
 (*                                                                         *)
 (* ---- metadata part (C03) ----                                           *)
 (*  mdeliver one entry carrying the envelope described by the symbolic     *)
@@ -42,6 +44,10 @@
 (*           comparison with the control replica (same keys as V, receives *)
 (*           every entry except the forged ones)                           *)
 (*  mfinal   the same comparison after both were closed and reopened       *)
+(*  crash    the store of the replica that appended an entry panicked (or   *)
+(*           refused to index from then on) while indexing it; rcrash: V's *)
+(*           store panicked while reopening: rejected when a forged entry  *)
+(*           is involved, otherwise outside C03 (the history ends there)   *)
 (* The classification Forged / CorrectlySigned is the statement of C03,    *)
 (* written as in MonMetaEnvelope.tla.                                      *)
 (***************************************************************************)
@@ -179,7 +185,7 @@ Forged(tm) == ~Decrypts(tm) \/ ~KnownType(tm.ty) \/ ~RightSigner(tm)
 \* otherwise the comparison would prove nothing)
 MDeliver ==
   /\ Consume("mdeliver")
-  /\ Ev.n = 1                                                    \* exactly this entry joined V's log
+  /\ Ev.n = Ev.nb                     \* exactly the entries of this batch joined V's log (one line per entry)
   /\ (Ev.ctl <=> ~Forged(Ev.tm))
   /\ (Forged(Ev.tm) => Ev.emr = 0 /\ Ev.gme = 0 /\ ~Ev.listed /\ ~Ev.rpclisted /\ Ev.unch)
   /\ (CorrectlySigned(Ev.tm) => Ev.emr = 1 /\ Ev.gme = 1 /\ Ev.listed /\ Ev.rpclisted)
@@ -200,7 +206,14 @@ MFinal ==
   /\ Ev.emitted = 0              \* replaying the log hands nothing to subscribers by itself
   /\ UNCHANGED <<msgvars, metavars>>
 
-MNext == MReset \/ MSeal \/ MNote \/ MKey \/ MArrive \/ MEmit \/ MQuiet \/ MList \/ MReopen \/ MDeliver \/ MFinal
+\* the store of the replica that wrote the entry panicked while indexing it: never acceptable for a forged entry
+\* (for other entries the statement of C03 is silent; the history ends there)
+MCrash == Consume("crash") /\ ~Forged(Ev.tm) /\ UNCHANGED <<msgvars, metavars>>
+
+\* V's store panicked while reopening its database: never acceptable when forged entries are in its log
+MCrashReopen == Consume("rcrash") /\ mfor = {} /\ UNCHANGED <<msgvars, metavars>>
+
+MNext == MCrash \/ MCrashReopen \/ MReset \/ MSeal \/ MNote \/ MKey \/ MArrive \/ MEmit \/ MQuiet \/ MList \/ MReopen \/ MDeliver \/ MFinal
 MInit == /\ l = 1 /\ sealed = {} /\ ent = Empty /\ credit = Empty /\ opened = {} /\ emitted = {}
          /\ keys = {} /\ fresh = {} /\ mfor = {} /\ mcor = {} /\ TLCSet(42, 1)
 MSpec == MInit /\ [][MNext]_mvars
